@@ -48,9 +48,10 @@ def determinism(n):
         ds, counts = [], []
         n_runs = "24" if prop == "C01" else "96"     # one worker must finish them inside the quick tier's wall budget
         for workers in (1, 16):
-            env = dict(os.environ, BNPSIM_WORKERS=str(workers), BNPSIM_RUNS=n_runs, BNPSIM_REPO="/repo")
+            evdir = os.path.join(VERIF, "out", "selftest-evidence")
+            env = dict(os.environ, BNPSIM_WORKERS=str(workers), BNPSIM_RUNS=n_runs, BNPSIM_REPO="/repo", BNPSIM_EVIDENCE_DIR=evdir)
             p = subprocess.run([os.path.join(VERIF, "check"), prop, "quick"], capture_output=True, text=True, env=env, cwd=VERIF)
-            ds.append(json.load(open(os.path.join(VERIF, "evidence", prop + ".json")))["coverage"]["determinism_digest"])
+            ds.append(json.load(open(os.path.join(evdir, prop + ".json")))["coverage"]["determinism_digest"])
             m = re.search(r"runs=(\d+)", p.stdout)
             counts.append(int(m.group(1)) if m else -1)
         if counts[0] != counts[1]:
